@@ -106,6 +106,11 @@ func PrintableBytes(data []byte) bool {
 }
 
 func BytesFromBuffer(r io.Reader, length int) ([]byte, error) {
+	// NB length generally comes from untrusted (TLV) data, so don't allocate more than the source can deliver
+	if lr, ok := r.(interface{ Len() int }); ok && (length < 0 || length > lr.Len()) {
+		return nil, fmt.Errorf("[BytesFromBuffer] Req:%d, Act:%d: %w", length, lr.Len(), io.ErrUnexpectedEOF)
+	}
+
 	tmp := make([]byte, length)
 
 	n, err := io.ReadFull(r, tmp)
